@@ -23,13 +23,13 @@ func init() {
 			"(R7) archetypes are created only when the graph node has none, and graph nodes are looked up by mask before being created. Not decided: that sequences of correct moves yield the right component sets and values for every history (graph lookup, growth and copy-range arithmetic).",
 		TrustedBase: []string{"go/types, go/cfg", "table method roles derived from signatures and field effects", "value identity by canonical expression (conversions stripped; single-assignment locals)"},
 		Rules: []Rule{
-			{ID: "C01/R1", Run: c01r1, Min: 5},
-			{ID: "C01/R2", Run: c01r2, Min: 8},
-			{ID: "C01/R3", Run: c01r3, Min: 5},
-			{ID: "C01/R4", Run: c01r4, Min: 2},
-			{ID: "C01/R5", Run: c01r5, Min: 4},
-			{ID: "C01/R6", Run: c01r6, Min: 5},
-			{ID: "C01/R7", Run: c01r7, Min: 3},
+			{ID: "C01/R1", Run: c01r1, Min: 1},
+			{ID: "C01/R2", Run: c01r2, Min: 1},
+			{ID: "C01/R3", Run: c01r3, Min: 1},
+			{ID: "C01/R4", Run: c01r4, Min: 1},
+			{ID: "C01/R5", Run: c01r5, Min: 1},
+			{ID: "C01/R6", Run: c01r6, Min: 1},
+			{ID: "C01/R7", Run: c01r7, Min: 1},
 		},
 	})
 }
@@ -822,7 +822,7 @@ var bufferPairs = map[string][2]string{
 func c01r6(c *core.Ctx) {
 	m := c.M
 	for owner, bp := range bufferPairs {
-		if m.Prog.LookupField(owner, bp[0]) == nil || m.Prog.LookupField(owner, bp[1]) == nil {
+		if m.FieldByKey(owner+"."+bp[0]) == nil || m.FieldByKey(owner+"."+bp[1]) == nil {
 			c.Undecide("C01/R6", owner, "buffer/pointer field pair not found")
 		}
 	}
